@@ -527,3 +527,32 @@ mut("C18", "r2-unpack-no-guard", "updater/unpacking.go",
     "\t\tif !strings.HasPrefix(dstPath, tmpDir+string(filepath.Separator)) {\n\t\t\terr = fmt.Errorf(\"archive file %s would be extracted outside of the unpack directory\", file.Name)\n\t\t\treturn err\n\t\t}\n", "", "C18-R2|extract entry", comment="reverts fix 7d20799")
 mut("C18", "r2-buildfilepath-returns-raw", "database/storage/fstree/fstree.go",
     "\t// return\n\treturn dstPath, nil\n}", "\t// return\n\treturn fst.basePath + string(filepath.Separator) + key, nil\n}", "C18-R2|returns the checked path")
+
+# ---- C19 -------------------------------------------------------------------
+mut("C19", "r1-no-blacklist-arm", "updater/resource.go",
+    "\tcase rv.Blacklisted:\n\t\t// Should not be used.\n\t\treturn false\n", "", "C19-R1|isSelectable", canary=True)
+mut("C19", "r1-offline-still-downloadable", "updater/resource.go",
+    "\tcase !rv.resource.registry.Online:\n\t\t// Cannot download, because registry is set to offline.\n\t\treturn false\n", "", "C19-R1|isSelectable")
+mut("C19", "r2-current-not-selectable", "updater/resource.go",
+    "\t\tif rv.CurrentRelease {\n\t\t\tif rv.isSelectable() {\n\t\t\t\tres.SelectedVersion = rv\n\t\t\t\treturn\n\t\t\t}", "\t\tif rv.CurrentRelease {\n\t\t\tif rv.Available {\n\t\t\t\tres.SelectedVersion = rv\n\t\t\t\treturn\n\t\t\t}", "C19-R2|")
+mut("C19", "r2-swap-pre-and-stable", "updater/resource.go",
+    "\t// 3) If UsePreReleases is set, find any newest version.\n\tif res.registry.UsePreReleases {\n\t\tfor _, rv := range res.Versions {\n\t\t\tif rv.isSelectable() {\n\t\t\t\tres.SelectedVersion = rv\n\t\t\t\treturn\n\t\t\t}\n\t\t}\n\t}\n\n\t// 4) Find the newest stable version.\n\tfor _, rv := range res.Versions {\n\t\tif !rv.PreRelease && rv.isSelectable() {\n\t\t\tres.SelectedVersion = rv\n\t\t\treturn\n\t\t}\n\t}",
+    "\t// 4) Find the newest stable version.\n\tfor _, rv := range res.Versions {\n\t\tif !rv.PreRelease && rv.isSelectable() {\n\t\t\tres.SelectedVersion = rv\n\t\t\treturn\n\t\t}\n\t}\n\n\t// 3) If UsePreReleases is set, find any newest version.\n\tif res.registry.UsePreReleases {\n\t\tfor _, rv := range res.Versions {\n\t\t\tif rv.isSelectable() {\n\t\t\t\tres.SelectedVersion = rv\n\t\t\t\treturn\n\t\t\t}\n\t\t}\n\t}", "C19-R2|stage order")
+mut("C19", "r2-dev-without-available", "updater/resource.go",
+    "\t\tif rv.semVer.Equal(devVersion) && rv.Available {", "\t\tif rv.semVer.Equal(devVersion) {", "C19-R2|")
+mut("C19", "r2-fallback-last", "updater/resource.go",
+    "\tres.SelectedVersion = res.Versions[0]\n\tfallback = true", "\tres.SelectedVersion = res.Versions[len(res.Versions)-1]\n\tfallback = true", "C19-R2|newest")
+mut("C19", "r3-blacklist-threshold", "updater/resource.go",
+    "\tif valid <= 1 {\n\t\treturn errors.New(\"cannot blacklist last version\")", "\tif valid <= 0 {\n\t\treturn errors.New(\"cannot blacklist last version\")", "C19-R3|set Blacklisted")
+mut("C19", "r3-dev-counted", "updater/resource.go",
+    "\t\tif rv.semVer.Equal(devVersion) {\n\t\t\tcontinue // ignore dev versions\n\t\t}\n\t\tif !rv.Blacklisted {\n\t\t\tvalid++\n\t\t}", "\t\tif !rv.Blacklisted && rv.semVer.GreaterThanOrEqual(devVersion) {\n\t\t\tvalid++\n\t\t}", "C19-R3|count valid version")
+mut("C19", "r3-no-reselect", "updater/resource.go",
+    "\t\t\trv.Blacklisted = true\n\t\t\tres.selectVersion()\n\t\t\treturn nil", "\t\t\trv.Blacklisted = true\n\t\t\treturn nil", "C19-R3|re-select after blacklisting")
+mut("C19", "r4-keep-purged", "updater/resource.go",
+    "\tres.Versions = res.Versions[:purgeBoundary]", "\tres.Versions = res.Versions[purgeBoundary:]", "C19-R4|kept versus purged", comment="reverts fix 3a58d17")
+mut("C19", "r4-stable-by-semver", "updater/resource.go",
+    "\t\tif !rv.PreRelease {\n\t\t\tskippedStableVersion = true\n\t\t}", "\t\tif rv.semVer.Prerelease() == \"\" {\n\t\t\tskippedStableVersion = true\n\t\t}", "C19-R4|stable version predicate")
+mut("C19", "r4-keep-floor-one", "updater/resource.go",
+    "\tif keepExtra < 2 {\n\t\tkeepExtra = 2\n\t}", "\tif keepExtra < 1 {\n\t\tkeepExtra = 1\n\t}", "C19-R4|keepExtra floor")
+mut("C19", "r5-nil-map", "updater/registry.go",
+    "\tversions = make(map[string]string, len(reg.resources))\n", "", "C19-R5|write to map", comment="reverts fix 1e76966")
